@@ -60,6 +60,8 @@ type SecFault struct {
 	Sticky bool   `json:"sticky,omitempty"`
 }
 
+const maxInt64 = int64(^uint64(0) >> 1)
+
 const secNoEnd = int64(1) << 55 // "no practical end" for plan arithmetic (sections of kind "section")
 
 type Section struct{}
@@ -135,9 +137,46 @@ func (Section) Generate(seed uint64, tier string) engine.Plan {
 		} else {
 			next = w.Off + w.N + r.PickInt64(1, 3, 64, 5000)
 		}
+		if last && w.Inner == nil && w.Kind == "section" && r.Chance(1, 10) {
+			// a section that ends exactly at the top of the offset space (what
+			// AtToWriter builds): large but valid positions, where a sum like
+			// off+len(p) wraps although limit-off does not
+			w.N = maxInt64 - w.Off
+			nt := 1 + r.Intn(5)
+			for i := 0; i < nt; i++ {
+				k := r.PickInt64(0, 1, 2, 5, 100, 4096)
+				switch r.Intn(4) {
+				case 0:
+					w.Ops = append(w.Ops, SecOp{Op: "seek", Whence: 2, Rel: -k})
+				case 1:
+					w.Ops = append(w.Ops, SecOp{Op: "seek", Whence: 0, Rel: w.N - k})
+				case 2:
+					w.Ops = append(w.Ops, SecOp{Op: "writeat", Rel: w.N - k, Len: int(r.PickInt64(0, 1, k-1, k, k+1, 2*k+3, 300))})
+					if w.Ops[len(w.Ops)-1].Len < 0 {
+						w.Ops[len(w.Ops)-1].Len = 0
+					}
+					continue
+				default:
+					w.Ops = append(w.Ops, SecOp{Op: "seek", Whence: 0, Rel: r.PickInt64(0, 1, 4096)})
+				}
+				l := r.PickInt64(0, 1, k-1, k, k+1, 2*k+3, 300)
+				if l < 0 {
+					l = 0
+				}
+				w.Ops = append(w.Ops, SecOp{Op: "write", Len: int(l)})
+				if r.Chance(1, 2) {
+					w.Ops = append(w.Ops, SecOp{Op: "write", Len: int(r.PickInt64(0, 1, 7))})
+				}
+			}
+			p.Writers = append(p.Writers, w)
+			continue
+		}
 		nops := 1 + r.Intn(12)
 		if r.Chance(1, 5) {
 			nops = 1 + r.Intn(40)
+		}
+		if deep(tier) && r.Chance(1, 10) {
+			nops = 40 + r.Intn(160) // thorough tier: long histories
 		}
 		cur := int64(0) // generator's estimate of the section-relative cursor (no faults)
 		n := w.N
@@ -301,7 +340,7 @@ func (Section) Generate(seed uint64, tier string) engine.Plan {
 		// disk full somewhere inside (or at the edges of) a section
 		w := p.Writers[r.Intn(len(p.Writers))]
 		n := w.N
-		if w.Kind == "at" || n == secNoEnd {
+		if w.Kind == "at" || n >= secNoEnd {
 			n = 5000
 		}
 		absOff := w.Off
@@ -549,6 +588,11 @@ func (Section) Execute(pl engine.Plan, c *engine.RunCtx) *engine.Failure {
 							continue // an empty underlying call has no byte to place
 						}
 						lo, hi := rc.Off, rc.Off+int64(rc.Offered)
+						if hi < lo {
+							// the offered range runs past the top of the offset space
+							fail = engine.Failf("C18.contain", step, "writer %d [%d,%d) offered %d bytes at offset %d to the underlying writer: that runs %d bytes past the section end (and past the top of the int64 offset space) (op %s len=%d rel=%d)", wi, m.base, m.wlimit, rc.Offered, rc.Off, int64(rc.Offered)-(m.wlimit-rc.Off), op.Op, op.Len, op.Rel)
+							return
+						}
 						if lo < m.base || hi > m.wlimit || lo < 0 {
 							fail = engine.Failf("C18.contain", step, "writer %d [%d,%d) let bytes [%d,%d) reach the disk (op %s len=%d rel=%d)", wi, m.base, m.wlimit, lo, hi, op.Op, op.Len, op.Rel)
 							return
